@@ -231,7 +231,10 @@ func (s *JavaIdentifierListener) EnterExpression(ctx *parser.ExpressionContext) 
 		statementCtx := ctx.GetParent().(*parser.StatementContext)
 		firstChild := statementCtx.GetChild(0).(antlr.ParseTree).GetText()
 		if strings.ToLower(firstChild) == "return" {
-			currentMethod.IsReturnNull = strings.Contains(ctx.GetText(), "null")
+			// one return of null is enough; a later return of something else does not take it back
+			if strings.Contains(ctx.GetText(), "null") {
+				currentMethod.IsReturnNull = true
+			}
 		}
 	}
 }
